@@ -474,7 +474,7 @@ def build(tier, seed):
         'bounds': {'mutator_depth': depth, 'max_len': L, 'alphabet': [-1, 0, 2], 'registry_array_functions': len(REG),
                    'registry_object_functions': len(OBJ), 'excluded': EXCLUDE, 'uncovered_public_callables': uncovered()},
         'required_classes': ['A:constructor', 'A:reset_values', 'A:list', 'A:i64', 'A:transition-changed-values', 'A-cluster:time_match-shifted',
-                             'B:returned', 'B:raised-both-times', 'B:list-input', 'B:int-input', 'B:history', 'B:A-B-A', 'B:A-B-A-records', 'B:after-every-edit', 'B:buffer-refilled-in-place'],
+                             'B:returned', 'B:raised-both-times', 'B:list-input', 'B:int-input', 'B:history', 'B:A-B-A', 'B:A-B-A-records', 'B:after-every-edit', 'B:buffer-refilled-in-place', 'B:earlier-result-held'],
         'assumptions': ['purity is decided for the functions in the explicit registry; public callables in neither the registry nor the exclusion '
                         'list are reported under bounds.uncovered_public_callables',
                         'a function that raises for an input must raise again on the second call and still leave its input unchanged'],
@@ -820,11 +820,25 @@ def check_call(r, name, fn, args, snap_of0, sub, alt_args=None):
     # A-B-A over the main argument: the same call after an intervening call on another record of the same length and type
     # (process-level state that survives between calls and is keyed by anything but the argument's content)
     if alt_args is not None and res[0][0] == 'ok' and res[1][0] == 'ok':
-        r.evals += 2
+        r.evals += 3
+        # ... and what the caller got for A stays what it is while the function answers for B (a result that is a view of a buffer the
+        # function reuses is overwritten by the next call)
+        try:
+            held = fn(*args)
+            held_copy = copy.deepcopy(held)
+        except Exception:   # noqa
+            held = held_copy = None
         try:
             fn(*alt_args)
         except Exception:   # noqa
             pass
+        if held is not None:
+            r.n_cmp += 1
+            r.cls('B:earlier-result-held')
+            if not bits_equal(held, held_copy):
+                r.fail('purity.earlier-result-overwritten', dict(sub, sequence='r = f(A), f(B), r unchanged?'),
+                       '%s: the result the caller holds for one argument changed when the function was called with another argument' % name,
+                       observed=held, expected=held_copy)
         try:
             third = ('ok', copy.deepcopy(fn(*args)))
         except Exception as e:   # noqa
